@@ -32,6 +32,21 @@ Theorem C10_env_shape :
 Proof. exact (conj eq_refl (conj eq_refl (conj eq_refl (conj eq_refl eq_refl)))). Qed.
 Print Assumptions C10_env_shape.
 
+(* compiledTask's loop over the sh: entries of the task's env does not look at the process
+   environment itself: the "already set in the OS" rule lives in env.GetFromVars alone, where it
+   is guarded by the ENV_PRECEDENCE experiment (EnvOsWinsUnlessExperiment above) *)
+Theorem C10_env_sh_loop_shape : EnvShLoopConsultsProcessEnv = false.
+Proof. exact eq_refl. Qed.
+Print Assumptions C10_env_sh_loop_shape.
+
+(* Reader.include templates an include statement's fields with the OS environment as the base
+   and the including file's vars merged on top: global vars > OS environment there too *)
+Theorem C10_include_template_vars_shape :
+  IncludeTemplateVarsBase = "env.GetEnviron()" /\ IncludeTemplateVarsTop = "vertex.Taskfile.Vars" /\
+  fl_include_os_first current_flags = false.
+Proof. exact (conj eq_refl (conj eq_refl eq_refl)). Qed.
+Print Assumptions C10_include_template_vars_shape.
+
 (* every extracted fact has a value the model knows how to follow *)
 Theorem C10_facts_known : vars_facts_known = true.
 Proof. exact eq_refl. Qed.
@@ -202,8 +217,8 @@ Proof. vm_compute. reflexivity. Qed.
 Example C10_example_env :
   let e := {| n_os := [("A", "os")]; n_exp := false; n_genv := [("A", "g"); ("B", "g")];
               n_gdot := [[("C", "d1")]; [("C", "d2")]]; n_tdot := []; n_tenv := [("B", "t")];
-              n_probes := ["A"; "B"; "C"] |} in
+              n_genv_sh := []; n_tenv_sh := []; n_probes := ["A"; "B"; "C"] |} in
   wf_ecase e /\ map (doc_env_value e) (n_probes e) = ["os"; "t"; "d1"].
 Proof.
-  split; [split; cbn; repeat constructor; cbn; intuition discriminate | vm_compute; reflexivity].
+  split; [repeat split; cbn; repeat constructor; cbn; intuition discriminate | vm_compute; reflexivity].
 Qed.
